@@ -1,4 +1,5 @@
 // C19 correspondence harness: the real JsonPointer / JsonParser / JsonWriter / JsonPatch / JsonData.
+#include <pthread.h>
 #include <sys/resource.h>
 #include <memory>
 #include <string>
@@ -150,6 +151,53 @@ static string parse_with(JsonParser *parser, const string &text) {
   return "err:" + H(parser->GetError());
 }
 
+// A handler that parses ANOTHER text from inside its k-th callback (overlapping parses).
+class NestingParser : public JsonParser {
+ public:
+  NestingParser(unsigned fire_at, const string &inner)
+      : m_count(0), m_fire_at(fire_at), m_inner(inner), m_fired(false) {}
+  void String(const string &v) { Hook(); JsonParser::String(v); }
+  void Number(uint32_t v) { Hook(); JsonParser::Number(v); }
+  void Number(int32_t v) { Hook(); JsonParser::Number(v); }
+  void Number(uint64_t v) { Hook(); JsonParser::Number(v); }
+  void Number(int64_t v) { Hook(); JsonParser::Number(v); }
+  void Number(const JsonDouble::DoubleRepresentation &v) { Hook(); JsonParser::Number(v); }
+  void Number(double v) { Hook(); JsonParser::Number(v); }
+  void Bool(bool v) { Hook(); JsonParser::Bool(v); }
+  void Null() { Hook(); JsonParser::Null(); }
+  void OpenArray() { Hook(); JsonParser::OpenArray(); }
+  void CloseArray() { Hook(); JsonParser::CloseArray(); }
+  void OpenObject() { Hook(); JsonParser::OpenObject(); }
+  void ObjectKey(const string &k) { Hook(); JsonParser::ObjectKey(k); }
+  void CloseObject() { Hook(); JsonParser::CloseObject(); }
+  bool fired() const { return m_fired; }
+  const string &inner_result() const { return m_inner_result; }
+ private:
+  void Hook() {
+    if (++m_count == m_fire_at) {
+      m_fired = true;
+      JsonParser fresh;
+      m_inner_result = parse_with(&fresh, m_inner);
+    }
+  }
+  unsigned m_count, m_fire_at;
+  string m_inner;
+  bool m_fired;
+  string m_inner_result;
+};
+
+// threads parsing different texts at the same time
+struct ThreadJob { string text; string expected; unsigned rounds; bool ok; };
+static void *thread_main(void *arg) {
+  ThreadJob *job = static_cast<ThreadJob*>(arg);
+  job->ok = true;
+  for (unsigned i = 0; i < job->rounds; i++) {
+    JsonParser parser;
+    if (parse_with(&parser, job->text) != job->expected) job->ok = false;
+  }
+  return NULL;
+}
+
 static JsonPatchOp *mk_op(const string &s) {
   vector<string> f = vh::split(s, ':');
   const string &k = f[0];
@@ -169,7 +217,7 @@ static const unsigned kParseWatchdogSeconds = 4;
 static string handle(const string &p) {
   vector<string> a = vh::split(p);
   const string &op = a[0];
-  if (op == "parse" || op == "deep" || op == "tree" || op == "len" || op == "seq" || op == "pdoc" || op == "ev") alarm(kParseWatchdogSeconds);
+  if (op == "parse" || op == "deep" || op == "tree" || op == "len" || op == "seq" || op == "pdoc" || op == "ev" || op == "nest" || op == "thr") alarm(kParseWatchdogSeconds);
   if (op == "ptr") {                      // pointer from its string form
     JsonPointer ptr(S(a[1]));
     if (!ptr.IsValid()) return "valid=0";
@@ -206,6 +254,34 @@ static string handle(const string &p) {
       if (close) for (unsigned i = n; i > 0; i--) t += ((i - 1) & 1) ? "}" : "]";
     }
     return parse_result(t, false);
+  }
+  if (op == "nest") {                      // parse <inner> from inside the k-th callback of parsing <outer>
+    string outer = S(a[2]), inner = S(a[3]);
+    JsonParser seq;
+    string inner_alone = parse_with(&seq, inner);
+    NestingParser nesting(vh::num(a[1]), inner);
+    string r = parse_with(&nesting, outer);
+    bool inner_ok = !nesting.fired() || nesting.inner_result() == inner_alone;
+    return "outer=" + r + ";inner=" + inner_alone + ";innerok=" + (inner_ok ? "1" : "0");
+  }
+  if (op == "thr") {                       // N threads, each parsing its own text repeatedly
+    vector<string> texts = vh::split(a[1], ',');
+    vector<ThreadJob> jobs(texts.size());
+    std::ostringstream o;
+    for (size_t i = 0; i < texts.size(); i++) {
+      JsonParser seq;
+      jobs[i].text = S(texts[i]);
+      jobs[i].expected = parse_with(&seq, jobs[i].text);
+      jobs[i].rounds = 40;
+      jobs[i].ok = false;
+      o << "p" << i << "=" << jobs[i].expected << ";";
+    }
+    vector<pthread_t> ids(texts.size());
+    for (size_t i = 0; i < jobs.size(); i++) pthread_create(&ids[i], NULL, thread_main, &jobs[i]);
+    bool all = true;
+    for (size_t i = 0; i < jobs.size(); i++) { pthread_join(ids[i], NULL); all = all && jobs[i].ok; }
+    o << "mt=" << (all ? "1" : "0");
+    return o.str();
   }
   if (op == "ev") {                        // the JsonParserInterface driven directly, any event order
     vector<string> ev = vh::split(a[1], ',');
